@@ -50,6 +50,9 @@ func govcUniverse() []*mocrelay.Event {
 		govcEv(14, govcAlice, 5, 1, mocrelay.Tag{"a", "30000:" + govcAlice + ":k"}),
 		// several values of one tag name on one event (a tag condition listing both must still count it once)
 		govcEv(15, govcBob, 1, 3, mocrelay.Tag{"t", "x"}, mocrelay.Tag{"t", "y"}, mocrelay.Tag{"t", "x"}),
+		// a deletion request naming the same target twice, and a second request of the same author naming a target
+		// that request 11 names too (the tombstone rows collide: the insert must tolerate it)
+		govcEv(16, govcAlice, 5, 4, mocrelay.Tag{"e", id(1)}, mocrelay.Tag{"e", id(1)}, mocrelay.Tag{"a", "30000:" + govcAlice + ":k"}, mocrelay.Tag{"a", "30000:" + govcAlice + ":k"}),
 	}
 }
 
@@ -446,7 +449,10 @@ func TestGovcBoundedSQLiteIdempotentReopen(t *testing.T) {
 			ref := govcMem(t)
 			for _, b := range batches {
 				if err := insertEvents(ctx, ref, 7, b); err != nil {
-					t.Fatalf("insert: %v", err)
+					{
+						fmt.Printf("GOVC-BOUNDED-FAIL history=%s: a single insertion of the batches failed: %v\n", govcName(batches), err)
+						t.FailNow()
+					}
 				}
 			}
 			want := answers(ref, 7)
@@ -480,7 +486,10 @@ func TestGovcBoundedSQLiteIdempotentReopen(t *testing.T) {
 					}
 					seed = sd
 					if err := insertEvents(ctx, fdb, seed, b); err != nil {
-						t.Fatalf("insert: %v", err)
+						{
+							fmt.Printf("GOVC-BOUNDED-FAIL history=%s: a single insertion of the batches failed: %v\n", govcName(batches), err)
+							t.FailNow()
+						}
 					}
 					fdb.Close()
 				}
@@ -496,7 +505,10 @@ func TestGovcBoundedSQLiteIdempotentReopen(t *testing.T) {
 				ref2 := govcMem(t)
 				for _, b := range batches {
 					if err := insertEvents(ctx, ref2, seed, b); err != nil {
-						t.Fatalf("insert: %v", err)
+						{
+							fmt.Printf("GOVC-BOUNDED-FAIL history=%s: a single insertion of the batches failed: %v\n", govcName(batches), err)
+							t.FailNow()
+						}
 					}
 				}
 				want2 := answers(ref2, seed)
